@@ -101,9 +101,15 @@ def r1_exemptions_first(ctx):
     cx = ctx.fb.body('pavexc', BC + 'complex::complex_borrow_check')
     if ctx.need('C02.R1', 'complex_borrow_check', cx) is not None:
         from ..tables import guard_context
+        from ..inline import inlined
+        cx = inlined(ctx.fb, cx, keep={BC + 'complex::emit_borrow_checking_error'}, depth=6)   # the fixed point may be a struct with methods
         em = [bb for bb, t in cx.calls() if callee(t) == BC + 'complex::emit_borrow_checking_error']
-        enum = BC + 'complex::complex_borrow_check::StrategyOnBlock'
-        ok = bool(em) and all(guard_context(cx, e).get(enum) == {'Error'} for e in em)
+
+        def strategy(g):
+            # the strategy enum, wherever it is declared (inside the function or at module level)
+            vs = [v for k, v in g.items() if k.startswith(BC + 'complex::') and k.endswith('::StrategyOnBlock')]
+            return vs[0] if len(vs) == 1 else None
+        ok = bool(em) and all(strategy(guard_context(cx, e)) == {'Error'} for e in em)
         ctx.ob('C02.R1', 'complex|error-only-in-error-strategy', ok, cx.loc(em[0]) if em else cx.loc(), 'emit_borrow_checking_error is reached only under StrategyOnBlock::Error (after parking and cloning were tried)')
 
 
